@@ -87,6 +87,9 @@ ALL = [
                                  '<w:footnote w:id="3"><w:p><w:r><w:t>«4»n3</w:t></w:r></w:p><m:oMathPara><m:oMath><m:r><m:t>«5»z</m:t></m:r></m:oMath></m:oMathPara></w:footnote></w:footnotes>')})),
     ('P43-text-after-a-text-box-in-a-link-run', ['C07', 'C19', 'C10'], lambda: docx(p(r('«9»see '), link('r:id="rId9"', '<w:r><w:rPr><w:highlight w:val="yellow"/></w:rPr><w:t>«1»head </w:t><w:pict><v:shape><v:textbox><w:txbxContent>'
         + p(r('«2»boxed ')) + '</w:txbxContent></v:textbox></v:shape></w:pict><w:t>«3»tail</w:t></w:r>')), docrels=LINK)),
+    # formatted blanks (the underlined gaps of a form line): text without any token carries its formatting too
+    ('P44-formatted-blanks', ['C07', 'C19', 'C06'], lambda: docx(p(r('«1»Name:', '<w:b/>'), r('      ', '<w:u w:val="single"/>'), r(' ', '<w:strike/>'), r('«2» end'))
+        + p(r('«3»x'), r('\u00a0\u2003', '<w:highlight w:val="yellow"/>'), r('«4»y', '<w:i/>'), ppr='<w:pStyle w:val="Heading2"/>'))),
     ('P15-links-different-anchors', ['C10', 'C06'], lambda: docx(p(link('r:id="rId9" w:anchor="a"', r('«1»x')), link('r:id="rId9" w:anchor="b"', r('«2»y'))), docrels=LINK)),
     ('P16-word-word', ['C09'], lambda: docx(p(r('body')), docrels=[('rId2', 'header', 'word/h.xml')], extra={'word/word/h.xml': f'<w:hdr {NS}>' + p(r('head-in-word-word')) + '</w:hdr>'})),
     ('P18-range-end-without-start', ['C13', 'C12'], lambda: docx(p(r('a'), '<w:commentRangeEnd w:id="5"/>', r('b', '<w:b/>')))),
